@@ -12,11 +12,19 @@ def classify_crash(out, err, repo):
     cls, func = "died", "?"
     m = re.search(r"ERROR: AddressSanitizer: ([A-Za-z0-9\-_]+)", err)
     if m:
-        cls = "asan:" + m.group(1)
-        if m.group(1) == "SEGV":
-            mm = re.search(r"The signal is caused by a (READ|WRITE) memory access", err)
-            if mm:
-                cls += ":" + mm.group(1).lower()
+        # which ASan class a wild access lands in (overflow / use-after-free / SEGV) depends on heap layout, not on
+        # the defect: all out-of-bounds memory accesses are one class
+        kind = m.group(1)
+        if kind in ("heap-buffer-overflow", "global-buffer-overflow", "stack-buffer-overflow", "heap-use-after-free", "SEGV",
+                    "use-after-poison", "dynamic-stack-buffer-overflow", "stack-use-after-return", "unknown-crash",
+                    "container-overflow", "negative-size-param", "memcpy-param-overlap", "BUS"):
+            cls = "memory-fault"
+        elif kind in ("attempting", "double-free", "bad-free", "alloc-dealloc-mismatch"):
+            cls = "bad-free"
+            if "double-free" in err:
+                cls = "double-free"
+        else:
+            cls = "asan:" + kind
     else:
         m = re.search(r"runtime error: (.*)", err)
         if m:
@@ -47,6 +55,9 @@ def died_info(out):
     m = re.search(r"DIED op=(-?\d+) kind=(\S*) api=(\S*)", out)
     if m:
         return int(m.group(1)), m.group(2), m.group(3)
+    ms = re.findall(r"^AT op=(-?\d+) kind=(\S*)", out, re.M)   # exec mode announces every op
+    if ms:
+        return int(ms[-1][0]), ms[-1][1], "?"
     return -9, "?", "?"
 
 
